@@ -3,8 +3,8 @@
                              | ga c | lo c | sc | wc | ru c i | rw | se
                      beh = h<n> | sw ; dl = 0|1 ; prog = word over R S W T, or - for the empty program
         -> one snapshot per `se`, joined by " | ":
-           <task>,<task>,...;W<stage>;X<crashed conns>;E<serr>
-           task = c.i:<phase>:<ncancel>:<nhit>:<cleanup_done>:<registered>:<in_tasks>:<in_cancelled>:<late>
+           <task>,<task>,...;W<stage>;X<crashed conns>;E<serr>;H<connections whose Handler is in Server._handlers>
+           task = c.i:<phase>:<ncancel>:<nhit>:<cleanup_done>:<registered>:<in_tasks>:<in_cancelled>:<late>:<werr>
            phase = C | R<awaits left after the current one> | K<sleeps left> | F
    pair <a> <b>      a, b in rst dl ga lo sc   -> 0|1   (second cause lands in the cleanup)
    gx <started bits> <sig,sig,...>            -> <closes,...> <flag> <exit codes in order raised,...>
@@ -45,15 +45,16 @@ let show_phase = function
   | Cleanup n -> "K" ^ string_of_int (int_of_nat n + 1)
   | Finished -> "F"
 let show_task t =
-  Printf.sprintf "%d.%d:%s:%d:%d:%s:%s:%s:%s:%s" (int_of_nat t.tc) (int_of_nat t.ti) (show_phase t.ph)
+  Printf.sprintf "%d.%d:%s:%d:%d:%s:%s:%s:%s:%s:%s" (int_of_nat t.tc) (int_of_nat t.ti) (show_phase t.ph)
     (int_of_nat t.ncancel) (int_of_nat t.nhit) (b2s t.cleanup_done) (b2s t.registered)
-    (b2s t.in_tasks) (b2s t.in_cancelled) (b2s t.late)
+    (b2s t.in_tasks) (b2s t.in_cancelled) (b2s t.late) (b2s t.werr)
 let show_w = function
   | WNone -> "none" | WLatch -> "latch" | WServer -> "server" | WSub _ -> "sub" | WDone -> "done" | WErr -> "err"
 let snapshot s =
   let crashed = List.concat (List.mapi (fun i k -> if k.crashed then [string_of_int i] else []) s.conns) in
+  let handlers = List.concat (List.mapi (fun i k -> if k.in_handlers then [string_of_int i] else []) s.conns) in
   String.concat "," (List.map show_task s.tasks) ^ ";W" ^ show_w s.wst ^ ";X" ^ String.concat "," crashed ^
-  ";E" ^ b2s s.srv.serr
+  ";E" ^ b2s s.srv.serr ^ ";H" ^ String.concat "," handlers
 
 let cause_of_word = function
   | "rst" -> CRst | "dl" -> CDeadline | "ga" -> CGoaway | "lo" -> CLost | "sc" -> CSrvClose
